@@ -1,5 +1,6 @@
 import EudoxiaModel.Proofs.WorldInv
 import EudoxiaModel.Model.Obs
+import EudoxiaModel.Proofs.TickFrame
 /-! # C03 — pool CPU and RAM are conserved: never lost, never double-freed, never oversold -/
 namespace Eudoxia.C03
 open Eudoxia
@@ -71,5 +72,21 @@ example : PoolInv { capC := 8, capR := 512, availC := 5, availR := 128,
                     active := [{ cid := 0, ops := [0], cpu := 2, ram := 256, pos := { ops := [] } }],
                     suspending := [{ cid := 1, ops := [1], cpu := 1, ram := 128, pos := { ops := [] } }] } 2 := by
   constructor <;> simp [cpuSum, ramSum, cids]
+
+/-- **a container's allocation is returned in the tick it completes**: in a ready world — every world between two ticks of a run — a container that still holds
+an allocation as a running container has an operator left to run; so the clause `unfinishedB` ("returned-when-finished") of `check_C03` is true on every state
+of the model, and an implementation state that fails it shows a finished container still holding its CPU and RAM -/
+theorem running_containers_have_work_left {w : World} (hr : WorldReady w) : (w.toObs.pools.all unfinishedB) = true := by
+  simp only [World.toObs, List.all_map, List.all_eq_true, Function.comp]
+  intro p hp
+  simp only [unfinishedB, Pool.toObs, List.all_map, List.all_eq_true, Function.comp, Ctr.toObs, decide_eq_true_eq]
+  intro c hc
+  have hne := active_unf_ne hr hp hc
+  apply decide_eq_true
+  apply Classical.byContradiction
+  intro hge
+  apply hne
+  unfold Ctr.unfinished
+  exact List.drop_eq_nil_of_le (by omega)
 
 end Eudoxia.C03
